@@ -634,6 +634,171 @@ Proof.
     rewrite lookup_update_same. rewrite (remove_at_update_same _ _ _ _ L Ha). reflexivity.
 Qed.
 
+(* ================================================================== *)
+(* breadth-first traversal of a forest = all its nodes (permutation)     *)
+
+Definition children_nodes (rel : list name) (ch : list (name * tree)) : list (list name * tree) :=
+  map (fun nt => (rel ++ [fst nt], snd nt)) ch.
+
+Fixpoint subdirs (rel : list name) (ch : list (name * tree)) : queue :=
+  match ch with
+  | [] => []
+  | (n, Dir sub) :: r => (rel ++ [n], sub) :: subdirs rel r
+  | (n, File _) :: r => subdirs rel r
+  end.
+
+Fixpoint bfs (fuel : nat) (q : queue) : list (list name * tree) :=
+  match q with
+  | [] => []
+  | (rel, ch) :: qr =>
+      match fuel with
+      | O => []
+      | S f => children_nodes rel ch ++ bfs f (qr ++ subdirs rel ch)
+      end
+  end.
+
+Definition qsize (q : queue) : nat := list_sum (map (fun rc => S (sizes (snd rc))) q).
+
+Definition qnodes (q : queue) : list (list name * tree) :=
+  flat_map (fun rc => nodes (fst rc) (Dir (snd rc))) q.
+
+Lemma nodes_dir_cons pre n c r :
+  nodes pre (Dir ((n, c) :: r)) = (pre ++ [n], c) :: nodes (pre ++ [n]) c ++ nodes pre (Dir r).
+Proof. reflexivity. Qed.
+
+Lemma qsize_app a b : qsize (a ++ b) = (qsize a + qsize b)%nat.
+Proof. unfold qsize. rewrite map_app, list_sum_app. reflexivity. Qed.
+
+Lemma sizes_cons n c ch : sizes ((n, c) :: ch) = (tree_size c + sizes ch)%nat.
+Proof. reflexivity. Qed.
+
+Lemma qsize_cons rel ch q : qsize ((rel, ch) :: q) = (S (sizes ch) + qsize q)%nat.
+Proof. reflexivity. Qed.
+
+Lemma qsize_subdirs rel ch : (qsize (subdirs rel ch) <= sizes ch)%nat.
+Proof.
+  induction ch as [|[n [c|sub]] ch IH]; cbn [subdirs].
+  - apply Nat.le_refl.
+  - rewrite sizes_cons. lia.
+  - rewrite sizes_cons, qsize_cons, tree_size_dir. lia.
+Qed.
+
+Lemma nodes_split rel ch :
+  Permutation (children_nodes rel ch ++ qnodes (subdirs rel ch)) (nodes rel (Dir ch)).
+Proof.
+  induction ch as [|[n c] ch IH]; [constructor|].
+  rewrite nodes_dir_cons. cbn [children_nodes map fst snd]. fold (children_nodes rel ch).
+  simpl app. apply perm_skip.
+  destruct c as [c|sub].
+  - cbn [subdirs nodes app]. exact IH.
+  - cbn [subdirs qnodes flat_map fst snd]. fold (qnodes (subdirs rel ch)).
+    rewrite Permutation_app_swap_app. apply Permutation_app_head. exact IH.
+Qed.
+
+Lemma bfs_perm fuel : forall q, (qsize q <= fuel)%nat -> Permutation (bfs fuel q) (qnodes q).
+Proof.
+  induction fuel as [|f IH]; intros [|[rel ch] qr] Hq; try constructor.
+  - rewrite qsize_cons in Hq. lia.
+  - cbn [bfs]. cbn [qnodes flat_map fst snd]. fold (qnodes qr).
+    assert (Hs : (qsize (qr ++ subdirs rel ch) <= f)%nat).
+    { rewrite qsize_app. pose proof (qsize_subdirs rel ch). rewrite qsize_cons in Hq. lia. }
+    rewrite (IH _ Hs). unfold qnodes at 1. rewrite flat_map_app. fold (qnodes qr). fold (qnodes (subdirs rel ch)).
+    rewrite (Permutation_app_comm (qnodes qr)). rewrite app_assoc.
+    apply Permutation_app_tail. apply nodes_split.
+Qed.
+
+(* ================================================================== *)
+(* recursive list                                                        *)
+
+Definition item_of (ab : bool) (pt : list name * tree) : item := (mkp ab (fst pt), is_dir (snd pt)).
+
+Lemma assoc_NoDup_In (ch : list (name * tree)) n c :
+  NoDup (map fst ch) -> In (n, c) ch -> assoc n ch = Some c.
+Proof.
+  induction ch as [|[k t] ch IH]; simpl; [tauto|]. intros ND [E|I].
+  - inversion E; subst. rewrite name_eqb_refl. reflexivity.
+  - inversion ND; subst. destruct (name_eqbP n k) as [->|]; [|auto].
+    exfalso. apply H1. change k with (fst (k, c)). apply in_map. assumption.
+Qed.
+
+Definition q_ok (cwd : list name) (fs : tree) (ab : bool) (q : queue) : Prop :=
+  Forall (fun rc => lookup fs (base cwd ab ++ fst rc) = Some (Dir (snd rc)) /\ wf_tree (Dir (snd rc))) q.
+
+Lemma q_ok_subdirs cwd fs ab rel ch :
+  lookup fs (base cwd ab ++ rel) = Some (Dir ch) -> wf_tree (Dir ch) ->
+  q_ok cwd fs ab (subdirs rel ch).
+Proof.
+  intros L W. apply wf_tree_dir in W as [ND F].
+  assert (H : forall l, incl l ch -> q_ok cwd fs ab (subdirs rel l)).
+  { induction l as [|[n [c|sub]] l IHl]; intro I; simpl; try constructor.
+    - apply IHl. intros x Hx. apply I. right; assumption.
+    - split.
+      + simpl. rewrite app_assoc, lookup_app, L. simpl.
+        rewrite (assoc_NoDup_In ch n (Dir sub) ND); [reflexivity|]. apply I. left; reflexivity.
+      + rewrite Forall_forall in F. apply (F (n, Dir sub)). apply I. left; reflexivity.
+    - apply IHl. intros x Hx. apply I. right; assumption. }
+  apply H. apply incl_refl.
+Qed.
+
+Lemma filter_items ab rel ch :
+  map fst (filter snd (map (item_of ab) (children_nodes rel ch)))
+  = map (fun rc => mkp ab (fst rc)) (subdirs rel ch).
+Proof.
+  induction ch as [|[n [c|sub]] ch IH]; simpl; auto. rewrite IH. reflexivity.
+Qed.
+
+Lemma list_items_nodes ab rel (ch : list (name * tree)) :
+  list_items (mkp ab rel) (map (fun nt => (fst nt, is_dir (snd nt))) ch)
+  = map (item_of ab) (children_nodes rel ch).
+Proof.
+  unfold list_items, children_nodes. rewrite !map_map. apply map_ext. intros [n c]. reflexivity.
+Qed.
+
+Lemma list_loop_bfs cwd fs ab :
+  forall fuel rel ch qr acc,
+    q_ok cwd fs ab ((rel, ch) :: qr) ->
+    (qsize ((rel, ch) :: qr) <= fuel)%nat ->
+    list_loop fuel cwd fs true (mkp ab rel) (map (fun rc => mkp ab (fst rc)) qr) acc
+    = Ok (acc ++ map (item_of ab) (bfs fuel ((rel, ch) :: qr))).
+Proof.
+  induction fuel as [|f IH]; intros rel ch qr acc OK Hq.
+  - rewrite qsize_cons in Hq. lia.
+  - inversion OK as [|? ? [L W] OKr]; subst. cbn [fst snd] in *.
+    cbn [list_loop]. unfold r_list. rewrite resolve_base. cbn [p_abs p_parts]. rewrite L. cbn [bind].
+    rewrite list_items_nodes, filter_items. rewrite <- map_app.
+    assert (Hs : (qsize (qr ++ subdirs rel ch) <= f)%nat).
+    { rewrite qsize_app. pose proof (qsize_subdirs rel ch). rewrite qsize_cons in Hq. lia. }
+    assert (OK' : q_ok cwd fs ab (qr ++ subdirs rel ch)).
+    { apply Forall_app. split; [assumption|]. apply q_ok_subdirs; assumption. }
+    cbn [bfs]. destruct (qr ++ subdirs rel ch) as [|[rel' ch'] q'] eqn:E.
+    + simpl. destruct f; rewrite app_nil_r; reflexivity.
+    + cbn [map fst]. rewrite (IH rel' ch' q' _ OK' Hs). rewrite map_app, app_assoc. reflexivity.
+Qed.
+
+Lemma list_recursive_exact cwd fs p t fuel :
+  lookup fs (resolve cwd p) = Some t ->
+  wf_tree t ->
+  (tree_size t <= fuel)%nat ->
+  exists l, list_path fuel cwd fs true p = Ok l /\
+            Permutation l (map (fun e => (mkp (p_abs p) (fst e), snd e)) (entries (p_parts p) t)).
+Proof.
+  intros L W Hf. destruct t as [c|ch].
+  - exists []. split; [|constructor]. destruct fuel; [simpl in Hf; lia|].
+    unfold list_path. cbn [list_loop]. unfold r_list. rewrite L. reflexivity.
+  - rewrite tree_size_dir in Hf. destruct p as [ab parts]. cbn [p_abs p_parts] in *.
+    rewrite resolve_base in L. cbn [p_abs p_parts] in L.
+    eexists. split.
+    + unfold list_path. apply (list_loop_bfs cwd fs ab fuel parts ch [] []).
+      * constructor; [split; assumption|constructor].
+      * rewrite qsize_cons. unfold qsize. simpl. lia.
+    + cbn [app]. unfold entries. rewrite map_map.
+      change (fun x : list name * tree => (mkp ab (fst (fst x, is_dir (snd x))), snd (fst x, is_dir (snd x))))
+        with (item_of ab).
+      apply Permutation_map.
+      rewrite (bfs_perm fuel [(parts, ch)]); [|rewrite qsize_cons; unfold qsize; simpl; lia].
+      unfold qnodes. simpl. rewrite app_nil_r. reflexivity.
+Qed.
+
 (* names used by the witnesses: "foo", "x", "y", "a" *)
 Definition n_foo : name := [102; 111; 111].
 Definition n_x : name := [120].
